@@ -97,6 +97,23 @@ Theorem C02_cells : forall cfg ds r part,
 Proof. exact report_cells. Qed.
 Print Assumptions C02_cells.
 
+(* Why C02_cells carries the hypothesis postings_syntactic: an account segment with a NUL byte
+   (which the parser never produces) makes two (account, commodity) pairs share one position key
+   of the MODEL's close stage (pos_key = name ++ NUL ++ commodity), which then carries their sum
+   under one of them; the statement without the hypothesis is false of the model.  knut itself
+   keys by (account, commodity) pointers and is not affected. *)
+Theorem C02_cells_unsyntactic_refuted :
+  exists cfg ds r part dl row c col,
+    bc_valuation cfg = None /\ balance_report cfg ds = COk (r, part) /\ parse_directives ds = MOk dl /\
+    ~ (rcell row (Some col, Some c) r ==
+       dvalue (period_amount (mapped_entries cfg (user_entries (span part) (periods part) (flat_postings dl) ++
+                 (if bc_close cfg
+                  then closing_entries (flat_postings dl) (closable_keys (span part) (flat_postings dl)) (p_start (span part)) (periods part)
+                  else [])))
+               (acc_eqb row) c col))%Q.
+Proof. exact cells_unsyntactic_refuted. Qed.
+Print Assumptions C02_cells_unsyntactic_refuted.
+
 (* the builder loses and duplicates nothing: the dated postings of its days are a permutation
    of the journal's postings, each in the day of its date *)
 Theorem C02_builder_complete : forall dl,
